@@ -182,6 +182,123 @@ func c15Users(s *source, rel string, ctor string) []string {
 	return out
 }
 
+
+// c15ReprSwitch reads the type switch of lang.reprOfValue: per case clause the Go type(s), and the returned
+// expression decomposed into the function called and the source of every argument, e.g.
+//   case uint8: return strconv.FormatUint(uint64(vt), 10)   ->   ("uint8", "strconv.FormatUint", ["uint64(vt)", "10"])
+// The Lean side (GoZero/C15/ReprTie.lean) INTERPRETS this table (conversion, formatting function, base, bit size)
+// on every Go value and proves the result equal to the model's `reprOf`. Emits also the switch header.
+func (e *emitter) c15ReprSwitch(s *source, rel, goName, leanName string) {
+	fd := s.findFunc(rel, goName)
+	var ts *ast.TypeSwitchStmt
+	if fd != nil {
+		for _, st := range fd.Body.List {
+			if x, ok := st.(*ast.TypeSwitchStmt); ok {
+				ts = x
+				break
+			}
+		}
+	}
+	if ts == nil {
+		e.errors = append(e.errors, "type switch of "+goName+" not found in "+rel)
+		e.printf("def %s : List (String × String × List String) := []\ndef %sHeader : String := \"MISSING\"\n\n", leanName, leanName)
+		return
+	}
+	e.printf("/-- header of the type switch of `%s` in %s -/\ndef %sHeader : String := %s\n\n", goName, rel, leanName, leanString(s.src(ts.Assign)))
+	e.printf("/-- cases of the type switch of `%s` in %s, in source order: (types, function, arguments) -/\ndef %s : List (String × String × List String) := [", goName, rel, leanName)
+	for i, c := range ts.Body.List {
+		cc := c.(*ast.CaseClause)
+		var types []string
+		for _, t := range cc.List {
+			types = append(types, s.src(t))
+		}
+		ty := strings.Join(types, ",")
+		if cc.List == nil {
+			ty = "default"
+		}
+		fn, args := "?", []string{}
+		if len(cc.Body) == 1 {
+			if r, ok := cc.Body[0].(*ast.ReturnStmt); ok && len(r.Results) == 1 {
+				if call, ok := r.Results[0].(*ast.CallExpr); ok {
+					fn = s.src(call.Fun)
+					for _, a := range call.Args {
+						args = append(args, s.src(a))
+					}
+				} else {
+					fn = s.src(r.Results[0])
+				}
+			}
+		}
+		if len(cc.Body) != 1 || fn == "?" {
+			fn = "?"
+			for _, st := range cc.Body {
+				args = append(args, s.src(st))
+			}
+		}
+		if i > 0 {
+			e.printf(",")
+		}
+		e.printf("\n  (%s, %s, [", leanString(ty), leanString(fn))
+		for j, a := range args {
+			if j > 0 {
+				e.printf(", ")
+			}
+			e.printf("%s", leanString(a))
+		}
+		e.printf("])")
+	}
+	e.printf("]\n\n")
+}
+
+// c15ReprFlow: the statements of lang.Repr in order, with conditions: nil test, the Stringer type switch, the
+// pointer-dereference loop, the final call.
+func c15ReprFlow(s *source, fd *ast.FuncDecl) []string {
+	if fd == nil {
+		return []string{"MISSING"}
+	}
+	var out []string
+	for _, st := range fd.Body.List {
+		switch x := st.(type) {
+		case *ast.IfStmt:
+			out = append(out, "if "+s.src(x.Cond))
+			for _, b := range x.Body.List {
+				out = append(out, "  "+s.src(b))
+			}
+		case *ast.TypeSwitchStmt:
+			out = append(out, "switch "+s.src(x.Assign))
+			for _, c := range x.Body.List {
+				cc := c.(*ast.CaseClause)
+				var types []string
+				for _, t := range cc.List {
+					types = append(types, s.src(t))
+				}
+				if cc.List == nil {
+					types = []string{"default"}
+				}
+				out = append(out, "  case "+strings.Join(types, ","))
+				for _, b := range cc.Body {
+					out = append(out, "    "+s.src(b))
+				}
+			}
+		case *ast.ForStmt:
+			h := "for "
+			if x.Init != nil || x.Post != nil {
+				h += "<init/post> "
+			}
+			if x.Cond != nil {
+				h += s.src(x.Cond)
+			}
+			out = append(out, h)
+			for _, b := range x.Body.List {
+				out = append(out, "  "+s.src(b))
+			}
+		default:
+			out = append(out, s.src(st))
+		}
+	}
+	return out
+}
+
 func init() {
 	register("C15", func(s *source, e *emitter) {
 		const f = "core/hash/consistenthash.go"
@@ -226,6 +343,10 @@ func init() {
 		e.stringList("redisStringExprs", "repr of a redis node", c15Exprs(s, s.findFunc("core/stores/redis/redis.go", "Redis.String")))
 		e.stringList("totalWeightsExprs", "TotalWeights", c15Exprs(s, s.findFunc("core/stores/cache/util.go", "TotalWeights")))
 		e.shapeDef(s, "core/stores/cache/util.go", "TotalWeights", "totalWeightsShape")
+		// lang.Repr: the identity of nodes and keys
+		const lf = "core/lang/lang.go"
+		e.stringList("langReprFlow", "statements of `lang.Repr` in order", c15ReprFlow(s, s.findFunc(lf, "Repr")))
+		e.c15ReprSwitch(s, lf, "reprOfValue", "reprSwitch")
 		// the default hash
 		e.stringList("hashExprs", "what `Hash` computes", c15Exprs(s, s.findFunc("core/hash/hash.go", "Hash")))
 	})
